@@ -18,7 +18,10 @@ import (
 	prand "pgregory.net/rand"
 )
 
-func quiesceNative() { time.Sleep(1500 * time.Millisecond) }
+// NativeQuiesce is how long the native Quiesce waits for goroutines and real timers to settle.
+var NativeQuiesce = 100 * time.Millisecond
+
+func quiesceNative() { time.Sleep(NativeQuiesce) }
 
 // Random draws of pgregory.net/rand are inputs: under the engine the drawing methods are solver
 // variables (Float64 in [0,1), Uint64n(n) < n, ...); natively the overlaid rand.go consults this
